@@ -74,8 +74,80 @@ class RemoveBackticks(FunctionContract):
                          And(r.is_var, r.name == z3.SubString(n, 1, L - 2))))]
 
 
+class ParseBody(FunctionContract):
+    """parse(expr) is SubstitutionMapper(remove_backticks)(_ExtendedParser()(expr)): the parser's result goes through the
+    backtick post-pass exactly once and nothing else is done to it.  The parser and the mapper are uninterpreted (A-SUBST is
+    stated for pymbolic.mapper.substitutor.SubstitutionMapper: the local imports, which the extraction drops, are read from
+    the real source and must bind exactly that class and pymbolic.var; any other class is outside the assumption)."""
+    prop = PROP
+    relpath = "dagrt/expression.py"
+    qualname = "parse"
+    WANT_IMPORTS = {"var": ("pymbolic", "var"), "SubstitutionMapper": ("pymbolic.mapper.substitutor", "SubstitutionMapper")}
+
+    def __init__(self):
+        self.E = z3.DeclareSort("Expr")
+        self.text = z3.Const("expr_text", z3.StringSort())
+        self.P = z3.Function("extended_parser", z3.StringSort(), self.E)
+        self.S = z3.Function("substitute_with_remove_backticks", self.E, self.E)
+
+    def load(self):
+        ex = super().load()
+        from pyvc import extract
+        tree, text = extract.parse_module(self.relpath)
+        fn = [n for n in tree.body if isinstance(n, pyast.FunctionDef) and n.name == "parse"][-1]
+        bound = {}
+        for n in pyast.walk(fn):
+            if isinstance(n, pyast.ImportFrom):
+                for al in n.names:
+                    bound[al.asname or al.name] = (n.module, al.name)
+            elif isinstance(n, pyast.Import):
+                for al in n.names:
+                    bound[al.asname or al.name] = (al.name, None)
+        for name, src in bound.items():
+            if self.WANT_IMPORTS.get(name) != src:
+                raise Unsupported("parse binds %s to %s.%s: A-SUBST does not cover it" % (name, src[0], src[1]))
+        return ex
+
+    def params(self, ctx):
+        ctx.env["expr"] = VStr(self.text)
+
+    def m_parser_cls(self, ctx, it, args, kw):
+        if args or kw:
+            raise Unsupported("_ExtendedParser(...) with arguments")
+        return VFunc("parser", self.m_parser)
+
+    def m_parser(self, ctx, it, args, kw):
+        a = ctx.deref(args[0])
+        if len(args) != 1 or kw or not isinstance(a, VStr):
+            raise Unsupported("parser(%r)" % (args,))
+        return VElem(None, self.P(a.t))
+
+    def m_mapper_cls(self, ctx, it, args, kw):
+        f = ctx.deref(args[0]) if len(args) == 1 and not kw else None
+        if not (isinstance(f, VPy) and f.py == "<remove_backticks>"):
+            raise Unsupported("SubstitutionMapper(%r)" % (args,))
+        return VFunc("substitutor", self.m_subst)
+
+    def m_subst(self, ctx, it, args, kw):
+        a = ctx.deref(args[0])
+        if len(args) != 1 or kw or not (isinstance(a, VElem) and z3.is_expr(a.t) and a.t.sort() == self.E):
+            raise Unsupported("substitutor(%r)" % (args,))
+        return VElem(None, self.S(a.t))
+
+    nested = {"remove_backticks": VPy("<remove_backticks>")}
+    names = property(lambda self: {"_ExtendedParser": VFunc("_ExtendedParser", self.m_parser_cls),
+                                   "SubstitutionMapper": VFunc("SubstitutionMapper", self.m_mapper_cls)})
+
+    def ensures(self, st):
+        r = st._deref(st.result)
+        if not (isinstance(r, VElem) and z3.is_expr(r.t) and r.t.sort() == self.E):
+            return [("returns-an-expression", z3.BoolVal(False))]
+        return [("the-parsed-expression-goes-through-the-backtick-post-pass-exactly-once",
+                 r.t == self.S(self.P(self.text)))]
+
+
 def units():
-    return [FunctionUnit(RemoveBackticks())]
+    return [FunctionUnit(RemoveBackticks()), FunctionUnit(ParseBody())]
 
 
 LEVEL = "exploration"
@@ -83,7 +155,7 @@ BOUNDED = {"quick": {"timeout_s": 90}, "thorough": {"timeout_s": 900}}
 TRUSTED_BASE = ["A-SUBST: pymbolic SubstitutionMapper descends exactly when the substitution function returns None"]
 ASSUMPTIONS = [
     "the round-trip contract parse(str(e)) == e (prints identically, same variables, same value under valuations) is only evaluated on enumerated / random expressions of the real dagrt.expression.parse and pymbolic's printer: bounded, never counted as proved",
-    "only the backtick post-pass (parse.remove_backticks) is under deductive contract",
+    "only the backtick post-pass (parse.remove_backticks) and the body of parse (parser, then the post-pass, once) are under deductive contract; pymbolic's parser and SubstitutionMapper are uninterpreted there",
 ]
 EXPLANATION = ("bounded contract check: exhaustive expressions to depth 2-3 over the property's operator set plus a random tail, "
                "evaluated with exact rational arithmetic; known printer / parser defects are listed by fingerprint. One function "
